@@ -306,20 +306,27 @@ func runC14(t *testing.T, ch *sim.Choices, tier string) (o Outcome) {
 				break
 			}
 			m.n++
-			rhs, val := c14Literal(old.kind, m.n)
-			switch old.kind {
+			// the re-declared name keeps its kind or (as REPL users do) gets another one
+			kind2 := old.kind
+			if gen.Draw(2) == 0 {
+				if kind2 = pick(c14Kinds); kind2 == "[]int" {
+					kind2 = old.kind
+				}
+			}
+			rhs, val := c14Literal(kind2, m.n)
+			switch kind2 {
 			case "int", "bool", "float64", "complex128", "string", "S":
 			default:
-				rhs = old.kind + "(" + rhs + ")" // keep the kind: an untyped literal would change it
+				rhs = kind2 + "(" + rhs + ")" // keep the kind: an untyped literal would change it
 			}
 			for _, w := range m.vars {
-				if w != v && m.cell[w].kind == old.kind && gen.Draw(2) == 0 {
+				if w != v && m.cell[w].kind == kind2 && gen.Draw(2) == 0 {
 					rhs, val = w, m.cell[w].val
 					break
 				}
 			}
 			nw := fmt.Sprintf("v%d", m.n)
-			m.cell[v] = &c14Cell{old.kind, val}
+			m.cell[v] = &c14Cell{kind2, val}
 			m.cell[nw] = &c14Cell{old.kind, old.val}
 			m.vars = append(m.vars, nw)
 			drop := func(names []string, of map[string]*c14Cell) []string {
